@@ -141,9 +141,24 @@ func waitFor(cond func() bool, ceiling time.Duration) bool {
 
 type history []string // N = new both, S = start both, P = wait for peering, X = stop one after the other, C = stop both concurrently
 
+// stopWatch is the real-time stall oracle for Stop (see kit.Watchdog): a Stop that
+// has not returned after four minutes (it needs seconds) is reported as a router
+// that cannot be stopped, and the shard ends (the stuck instance cannot be cleaned up).
+var stopWatch *kit.Watchdog
+
+func guardStop(f func()) {
+	if stopWatch != nil {
+		stopWatch.Case("lifecycle/stop-never-returns", "Instance.Stop() of a relay-only router did not return: a worker is blocked for ever")
+		defer stopWatch.Case("", "")
+	}
+	f()
+}
+
 func TestC20(t *testing.T) {
 	env := kit.GetEnv()
 	rep := kit.NewReport("C20", env)
+	stopWatch = rep.StartWatchdog(env, 240*time.Second)
+	defer stopWatch.Stop()
 	rep.Rule = "configurations: universe {'', 'u'} x secret {'', 's'} x lite x stub x services {0,1} x friends {0,1} x listeners {1,2 loopback ports; IPv4 loopback, every third case IPv6 loopback} x state storage {memory, json file} x API listener {none, free loopback port} (quick: a pairwise-covering subset of 24, thorough: all 512) for a pair of real relay-only instances (second dials the first), each configuration handed over as a parsed store or written as a .yaml / .json / .yml file and read by the real loader (rotating over cases); plus, for every sixth configuration (thorough: all), three routers on one host of which one has two connect URLs and must peer with both; histories: every well-formed word over {New, Start, Peer, Stop (sequential), Stop (both concurrently)} of up to 3 cycles from a fixed family (start-stop, start-peer-stop, construct-only, stop-without-start, double stop, and their repetitions) in one process; plus the module group alone with stub modules: all assignments of {ok, start fails, stop fails, worker never ends} to 4 modules with at most 2 faults (virtual time): every started module stopped once in reverse order, managers cancelled, result reports the failure; observed: panics/errors of New/Start, link on both sides, return value of Stop, goroutine count back to the pre-New baseline after every cycle; non-trivial = every case (each has >= 1 full cycle); distinct = distinct (configuration, history)"
 	rep.Assumptions = []string{
 		"this check runs on real loopback TCP in real time: goroutine schedules are NOT controlled; the property is quantified over configurations and histories only, which are enumerated exhaustively",
@@ -299,7 +314,7 @@ func TestC20(t *testing.T) {
 					for name, inst := range map[string]*mycoria.Instance{"A": a, "B": b} {
 						go func() {
 							var stopped bool
-							pan, pv := kit.Try(func() { stopped = inst.Stop() })
+							pan, pv := kit.Try(func() { guardStop(func() { stopped = inst.Stop() }) })
 							switch {
 							case pan:
 								res <- fmt.Sprintf("Stop of %s panicked: %v", name, pv)
@@ -324,7 +339,7 @@ func TestC20(t *testing.T) {
 							continue
 						}
 						var stopped bool
-						pan, pv := kit.Try(func() { stopped = inst.Stop() })
+						pan, pv := kit.Try(func() { guardStop(func() { stopped = inst.Stop() }) })
 						if pan {
 							fail("stop-panics", fmt.Sprintf("Stop of %s panicked: %v", name, pv))
 						} else if !stopped {
@@ -347,7 +362,7 @@ func TestC20(t *testing.T) {
 				// best effort cleanup so that later cases start clean.
 				for _, inst := range []*mycoria.Instance{a, b} {
 					if inst != nil {
-						kit.Try(func() { inst.Stop() })
+						kit.Try(func() { guardStop(func() { inst.Stop() }) })
 					}
 				}
 				time.Sleep(300 * time.Millisecond)
@@ -422,7 +437,7 @@ func TestC20(t *testing.T) {
 		}
 		for _, inst := range insts {
 			var stopped bool
-			pan, pv := kit.Try(func() { stopped = inst.Stop() })
+			pan, pv := kit.Try(func() { guardStop(func() { stopped = inst.Stop() }) })
 			if pan || !stopped {
 				rep.Violate("triple/stop", fmt.Sprintf("Stop failed (panic=%v stopped=%v) — %s", pv, stopped, desc), desc)
 				ok = false
@@ -440,6 +455,7 @@ func TestC20(t *testing.T) {
 	if env.Mine(1) {
 		groupFaults(t, rep, &evals, &nontrivial)
 	}
+	runRegistrySched(t, rep, env)
 	rep.Add(evals, nontrivial, 0, 0)
 	if err := rep.Finish(env); err != nil {
 		t.Fatal(err)
